@@ -52,7 +52,8 @@ def register(reg):
         else:
             ens.append(('variance-none', 'variance_cutout is None'))
         reg.add(Contract(
-            target=f'{S}._make_aperture_cutouts', props=['C16'], kind='method', tag=tag,
+            target=f'{S}._make_aperture_cutouts', props=['C16'] + (['C15'] if with_err else []),
+            kind='method', tag=tag,
             block=('data_mask', 'variance_cutout'), block_like='~np.isfinite(data_cutout)',
             params={'self': 'ApertureStats@' + tag,
                     'data_cutout': ('arr', 2, 'real', 'nonfinite', 'nonempty'),
@@ -66,12 +67,13 @@ def register(reg):
                      ('apermask.data[slc_small]', 'apermask.data[slc_large]')]
             + ([('data_mask |= self._mask[slc_large]', 'data_mask |= self._mask[slc_small]')]
                if maskspec != ('const', None) else [])
-            + ([('self._error[slc_large].astype(float)**2', 'self._error[slc_large].astype(float)'),
+            + ([('self._error[slc_large].astype(float)**2', 'self._error[slc_large]**2'),
+                ('self._error[slc_large].astype(float)**2', 'self._error[slc_large].astype(float)'),
                 ] if with_err else []),
         ))
 
     img = ('arr', 2, 'bool', 'nonempty')
-    err = ('arr', 2, 'real', 'nonempty')
+    err = ('arr', 2, 'real', 'nonempty', 'anydtype')      # error maps arrive in any dtype (C15)
     inimg_m = ['slc_large[0].stop <= self._mask.shape[0]', 'slc_large[1].stop <= self._mask.shape[1]']
     inimg_e = ['slc_large[0].stop <= self._error.shape[0]',
                'slc_large[1].stop <= self._error.shape[1]']
